@@ -217,3 +217,52 @@ Definition fw_history (node : eid) (now res : N) (copies : option N) (keep : boo
 (* ---- boolean helpers for the driver's property checker ---- *)
 Definition fw_cblock_eqb_shell (a b : cblock) : bool :=
   (c_num a =? c_num b) && (c_flags a =? c_flags b) && (c_crc a =? c_crc b).
+
+(* ---- the store item with its reception time; the same bundle handed in again ----
+   NewBundleDescriptor loads the item's stored properties when the ID is known, among them
+   "bundlepack/timestamp"; the Syncs that follow write the same value back.  receive returns at
+   once for a descriptor that already has retention constraints (= the bundle is stored): a
+   duplicate of a stored bundle changes neither the stored copy nor the reception time and
+   transmits nothing, whatever the duplicate's own mutable blocks look like.  When the bundle has
+   left the store, the bundle handed in is a new reception (stored as handed in, stamped now).
+   [wall] is a monotone clock in ms; the residence time of a retry at [wall] is [wall - ti_rx]. *)
+Record fw_titem := { ti_b : bundle; ti_rx : N }.
+
+Inductive fw_tevent :=
+| FwTRecv (b : bundle) (wall delay now : N) (copies : option N) (keep : bool)
+    (* handed in at [wall], processed [delay] ms later at clock [now] *)
+| FwTRetry (wall now : N) (copies : option N) (keep : bool)
+| FwTClean (now : N).
+
+Definition fw_tlift (rx : N) (s : option bundle) : option fw_titem :=
+  match s with Some b => Some {| ti_b := b; ti_rx := rx |} | None => None end.
+
+Definition fw_tstep (node : eid) (st : option fw_titem) (e : fw_tevent) : option fw_titem * list fw_out :=
+  match st, e with
+  | Some it, FwTRecv _ _ _ _ _ _ => (Some it, [])
+  | None, FwTRecv b wall delay now copies keep =>
+      let '(s, o) := fw_accept node now delay copies keep b in (fw_tlift wall s, o)
+  | Some it, FwTRetry wall now copies keep =>
+      let '(s, o) := fw_step node (Some (ti_b it)) (FwEvRetry now (wall - ti_rx it) copies keep) in
+      (fw_tlift (ti_rx it) s, o)
+  | Some it, FwTClean now =>
+      let '(s, o) := fw_step node (Some (ti_b it)) (FwEvClean now) in (fw_tlift (ti_rx it) s, o)
+  | None, _ => (None, [])
+  end.
+
+Fixpoint fw_trun (node : eid) (st : option fw_titem) (es : list fw_tevent) : option fw_titem * list fw_out :=
+  match es with
+  | [] => (st, [])
+  | e :: es' =>
+      let '(st1, o1) := fw_tstep node st e in
+      let '(st2, o2) := fw_trun node st1 es' in
+      (st2, o1 ++ o2)
+  end.
+
+(* the bundles handed in during a history *)
+Fixpoint fw_thanded (es : list fw_tevent) : list bundle :=
+  match es with
+  | [] => []
+  | FwTRecv b _ _ _ _ _ :: es' => b :: fw_thanded es'
+  | _ :: es' => fw_thanded es'
+  end.
